@@ -68,7 +68,7 @@ def run(P: Program, rep: Report):
     rep.rule("C09.R4", "repeated field keys: every `name = value` of an entry yields one field in source order whether or not "
                        "the key repeats, and the entry is returned as a duplicate-field block (with its entry, raw and line) "
                        "exactly when some key repeats. " + sf.PRODUCT_RULE_TEXT)
-    sf.report_product(rep, P, "C09.R4", ["content"], "fields kept, duplicate-field flagging", after_abort=False)
+    sf.guard(rep, "C09.R4", lambda: sf.report_product(rep, P, "C09.R4", ["content"], "fields kept, duplicate-field flagging", after_abort=False))
 
     rep.rule("C09.R5", "duplicate blocks are not live: the failed-block classes are not subclasses of Entry or String (so they are "
                        "never indexed by key) and are all ParsingFailedBlock subclasses (so they appear in failed_blocks)")
@@ -143,6 +143,14 @@ def run(P: Program, rep: Report):
                       f"after the default parse stack (inplace={inplace}) over [entry k1, duplicate of k1, entry k2 with a repeated field, entry k2, @string k1, "
                       f"@string k1 again, two entries with an empty key]: {v!r}; expected {want!r} (kinds, wrapped blocks, live keys, live titles, and for every "
                       f"duplicate-key block the class and position of the first block it exposes)")
+
+    rep.rule("C09.R8", "duplicate table, independent of how the splitter is organised: documents with repeated entry keys (also differing in case: "
+                       "distinct), a repeated @string name that is also an entry key, and entries that repeat field keys are cut by the real "
+                       "Splitter.split() (interpreter, concrete text) into one block per source block: the first of a key live, every later one a "
+                       "duplicate-key block at its place exposing key, wrapped block and the first block; an entry repeating field keys a "
+                       "duplicate-field block holding every field occurrence in order, its key not registered")
+    from .. import grammar_table as _gt8
+    _gt8.report(P, rep, "C09.R8", "dup")
 
     rep.rule("C09.R9", "no unsafe memoisation in the modules this property rests on: a function decorated with lru_cache / cache / "
                       "cached_property neither takes nor returns a mutable object (else later calls see stale or shared results)")
